@@ -82,6 +82,21 @@ def runCase (j : Json) : Except String Json := do
       | .data c w t => Json.mkObj [("k", "data"), ("cont", toJson c), ("words", jstrs w), ("comment", jstr t)])).toArray
   | _ => throw s!"unknown op {op}"
 
+def hex4 (n : Nat) : String :=
+  let d := fun (k : Nat) => (Nat.toDigits 16 ((n / 16 ^ k) % 16)).headD '0'
+  String.ofList [d 3, d 2, d 1, d 0]
+
+/-- the harness splits the output with Python's `splitlines`, which also cuts at U+0085, U+2028 …: write every
+    non-ASCII character (they only occur inside JSON strings) as a `\uXXXX` escape (surrogate pair above the BMP). -/
+def asciiOnly (s : String) : String :=
+  String.join (s.toList.map (fun c =>
+    let n := c.toNat
+    if n < 127 then String.singleton c
+    else if n < 0x10000 then "\\u" ++ hex4 n
+    else
+      let m := n - 0x10000
+      "\\u" ++ hex4 (0xD800 + m / 0x400) ++ "\\u" ++ hex4 (0xDC00 + m % 0x400)))
+
 partial def loop (h : IO.FS.Stream) : IO Unit := do
   let line ← h.getLine
   if line.isEmpty then return ()
@@ -90,7 +105,7 @@ partial def loop (h : IO.FS.Stream) : IO Unit := do
     | .ok j => match runCase j with
       | .ok r => r
       | .error e => Json.mkObj [("driver_error", e)]
-  IO.println out.compress
+  IO.println (asciiOnly out.compress)
   loop h
 
 def main : IO Unit := do loop (← IO.getStdin)
